@@ -300,12 +300,18 @@ macro_rules! c08_serve {
     };
 }
 
-//@ props=C08,C12,C11 tier=quick timeout=2400 mem=8 cap=3 name=c08_serve_step
+//@ props=C08,C12,C11 tier=quick timeout=2400 mem=8 cap=3 witness=c08_serve_step_w name=c08_serve_step
 //@ functions=BlockHandler::maybe_serve_cached_response, BlockHandler::packet_clone_limited, Packet::set_options_as::<BlockValue>, Packet::set_option
 //@ bounds=cached response: any id / 1-byte token / type, one ETag byte, body of symbolic length 0..40 with symbolic bytes; request: any id / token / type, Block2 num 0..3, block size 16
 //@ what=served payload = body[num*16 .. min((num+1)*16, len)]; more <=> bytes remain; Block2 echoes num/size; cached options repeated; reply carries the request's id and token; Err iff the block starts at or beyond the end (an empty body is served as one empty final block)
 //@ assumes=option map is the array model; the sum over num = 0,1,2.. of these steps is the reassembly statement (argument, not a query)
 c08_serve!(c08_serve_step, 40, 3, 0);
+
+//@ props=C08 tier=witness timeout=2400 mem=30 cap=3 name=c08_serve_step_w
+//@ functions=BlockHandler::maybe_serve_cached_response
+//@ bounds=as c08_serve_step with body 0..18 and num 0..2; only used to extract concrete counterexamples
+//@ what=as c08_serve_step
+c08_serve!(c08_serve_step_w, 18, 2, 0);
 
 //@ props=C08,C12 tier=thorough timeout=3600 mem=32 cap=3 name=c08_serve_step_32
 //@ functions=BlockHandler::maybe_serve_cached_response, BlockHandler::packet_clone_limited
@@ -455,7 +461,7 @@ macro_rules! c12_key_paths {
         #[kani::proof]
         #[kani::unwind(5)]
         #[kani::stub(core::fmt::write, crate::verif_harness::stub_write)]
-        #[kani::stub(core::str::from_utf8, crate::verif_harness::model_from_utf8)]
+        #[kani::stub(core::str::from_utf8, crate::verif_harness::model_from_utf8_valid_inputs)]
         fn $name() {
             let (c1, c2): (u8, u8) = (kani::any(), kani::any());
             kani::assume(c1 >= 1 && c1 <= 7 && c2 >= 1 && c2 <= 7);
